@@ -179,7 +179,7 @@ pub fn families() -> Vec<Box<dyn Family>> {
             "a changed line with MANY word tokens: both sides have a line with exactly t tokens for t around 255 / 256 / 999 / 1000 / 1001 / 1023 / 1024 / 2048 / 4096 (words separated by single blanks, so t = 2*words - 1 + terminator), one or two words changed, terminators differing between the sides in half of the cases; plus (every 10th case) a line with 70000 distinct words and one changed x {str,[u8]} x 3 inline deadlines",
             false,
             1,
-            |cfg| cfg.n(60, 1_200),
+            |cfg| if cfg.tiny { 2 } else { cfg.tier.pick(60, 600) },
             |idx, cfg, out| {
                 let mut rng = Rng::for_case(cfg.seed, "c16.long_lines", idx);
                 let huge = idx % 10 == 9 && !cfg.tiny;
